@@ -435,7 +435,23 @@ def _reach_report(pid, hit):
     return rep
 
 
+def _limit_memory():
+    """Scenarios run code that may have been changed: a corrupted pickle or
+    a runaway loop can ask for tens of gigabytes.  Cap the address space so
+    that this surfaces as MemoryError inside the scenario (and is judged
+    there) instead of as the kernel killing a worker."""
+    try:
+        import resource
+        cap = int(os.environ.get('VERIF_MEM_CAP_GB') or 6) << 30
+        soft, hard = resource.getrlimit(resource.RLIMIT_AS)
+        if hard == resource.RLIM_INFINITY or hard > cap:
+            resource.setrlimit(resource.RLIMIT_AS, (cap, hard))
+    except Exception:
+        pass
+
+
 def main(argv=None):
+    _limit_memory()
     ap = argparse.ArgumentParser()
     ap.add_argument('prop')
     ap.add_argument('--tier', default=os.environ.get('VERIF_TIER') or 'quick')
